@@ -30,10 +30,12 @@ PROGS = [
      "nodes": [[["rel", fx(3.0), 1, 5]], [["rel", fx(3.0), 2, 5], ["ev_off", fx(-1e-10), 3, 5]],
                [["rel", fx(5.0), 3, 5]], []]},
 ]
-BOUNDS = [[fx(4.0), fx(8.5), fx(15.0)], [4, 9, 14], [fx(104.0), fx(108.5), fx(130.0)]]   # the third lies beyond the end
-ALPHABET = ["init", "start", "step", "stop", "rut0", "rut1", "ruti0", "ruti1", "endrep", "cleanup", "rut2"]
+# the third bound lies beyond the end, the fourth is the start time (0.0 / 0: also falsy values)
+BOUNDS = [[fx(4.0), fx(8.5), fx(15.0), fx(0.0)], [4, 9, 14, 0], [fx(104.0), fx(108.5), fx(130.0), fx(100.0)]]
+ALPHABET = ["init", "start", "step", "stop", "rut0", "rut1", "ruti0", "ruti1", "endrep", "cleanup", "rut2",
+            "badinit", "ruti3"]
 
-RULE = ("(A) ALL command sequences over the 11-letter alphabet {initialize, start, step, stop, run_up_to(t1|t2|t3 beyond the end), "
+RULE = ("(A) ALL command sequences over the 13-letter alphabet {initialize, initialize without a model, start, step, stop, run_up_to(t1|t2|t3 beyond the end), run_up_to_including(start time), "
         "run_up_to_including(t1|t2), end_replication, cleanup} up to length 4 (quick) / 6 (thorough) on the float model and 3 / 5 on the int model plus Hypothesis "
         "sequences of length <= 10, on three fixed models (a float-clock replication that starts at 100; float clock: events at 1,4,7 and 12 beyond the end 10, warm-up "
         "2.5; int clock: ties and two events at exactly the end); after each command the harness waits for structural "
@@ -54,7 +56,7 @@ ASSUMPTIONS = [
     "cleanup() issued from a listener of a command that is still in progress is outside its documented use and not generated",
 ]
 NONTRIVIAL_FLOOR = 0.15
-EXHAUSTIVE_NOTE = "all command sequences up to length 4 (quick) / 6 (thorough) on the float model and 3 / 5 on the int model over the 11-letter alphabet, all three models"
+EXHAUSTIVE_NOTE = "all command sequences up to length 4 (quick) / 6 (thorough) on the float model and 3 / 5 on the int model over the 13-letter alphabet, all three models"
 
 
 def budget(tier):
@@ -118,6 +120,8 @@ class Proto:
         if cmd == "cleanup":
             self.rs, self.ps = "NOT_INITIALIZED", "NOT_INITIALIZED"
             return True, notes
+        if cmd == "badinit":
+            return False, notes                     # initialize without a model: refused, whatever the state
         if cmd == "stop":
             return False, notes                     # never running at quiescence
         if cmd == "endrep":
@@ -258,6 +262,8 @@ def run_case(case):
                     model.on_exec = lambda m, seq, node: rec.log.append(
                         ["EXEC", enc_obs(m.simulator.simulator_time), seq])
                     rec.hooks.pop("WARMUP", None)
+                elif cmd == "badinit":
+                    h.sim.initialize(None, h.make_replication())
                 elif cmd == "cleanup":
                     h.sim.cleanup()
                     rec.subscribe(h.sim)
